@@ -1,24 +1,34 @@
 /- Line-protocol model driver for C08 (threaded channel, single event loop, deterministic schedule).
-   One line = one history:   <requeue> <head> <redispatch> <check> <forwardOwn> <limit> op op op ...
+   One line = one history:   <requeue> <head> <redispatch> <check> <forwardOwn> <resumeBumps> <limit> op op op ...
      g<f>:<x>   fiber f gives item x (blocks when the queue is over capacity)         t<f>   fiber f takes        a<f>   fiber f abandons its wait
      c          close
-   After every op the (single) self-pipe is drained: `handle 0` until no message is in flight.
+     a token with a trailing `+` (g / t only) belongs to a burst: the ops of a burst run back to back in one run phase of the loop,
+     the pipe is not looked at in between, one observation after the last op of the burst
+   After every op the (single) self-pipe is drained (`handle 0` until no message is in flight) and then the run queue
+   (`resume 0` until no task is queued) - the implementation side runs the loop for several turns.
    Output: one observation per op, separated by " ; " :   <#items> d=<fiber>:<item>,... w=<fiber>,... g=<fiber>,...
-   (delivered log; takers woken by close; givers whose ev/give has returned: immediately, by a write wake-up or by close)
+   (`got` events of the log = fibers resumed with an item, in order; takers woken by close; givers whose ev/give has returned:
+   immediately, by a write wake-up or by close).  A second line protocol (`X ...`) runs an explicit schedule, see `runX`.
 -/
 import Driver.Util
 import JanetModel.Thread.Model
 open Driver JanetModel.Thread
 
-def pump (cfg : Cfg) : Nat → St → St
+def pumpPipe (cfg : Cfg) : Nat → St → St
   | 0, s => s
-  | n + 1, s => if s.flight.isEmpty then s else pump cfg n (handle cfg s 0)
+  | n + 1, s => if s.flight.isEmpty then s else pumpPipe cfg n (handle cfg s 0)
+
+def pumpRunq (cfg : Cfg) : Nat → St → St
+  | 0, s => s
+  | n + 1, s => if s.runq.isEmpty then s else pumpRunq cfg n (resume cfg s 0)
+
+def pump (cfg : Cfg) (n : Nat) (s : St) : St := pumpRunq cfg n (pumpPipe cfg n s)
 
 def sortNat (l : List Nat) : List Nat := l.foldl (fun acc x => (acc.filter (· < x)) ++ [x] ++ (acc.filter (· ≥ x))) []
 
 /-- `givers`: fibers that did a give; `imm`: givers whose give did not block -/
 def obs (s : St) (givers imm : List Nat) : String :=
-  let d := String.intercalate "," (s.delivered.map (fun p => s!"{p.1}:{p.2}"))
+  let d := String.intercalate "," ((gotAll s.log).map (fun p => s!"{p.1}:{p.2}"))
   let w := String.intercalate "," ((sortNat ((s.woken.filter (fun p => p.2 == Kind.close && !givers.contains p.1)).map (·.1))).map toString)
   let g := sortNat (imm ++ (s.woken.filter (fun p => givers.contains p.1 && (p.2 == Kind.write || p.2 == Kind.close))).map (·.1))
   s!"{s.items.length} d={d} w={w} g={String.intercalate "," (g.map toString)}"
@@ -40,15 +50,18 @@ def b (s : String) : Bool := s == "1"
 
 def runLine (toks : List String) : String :=
   match toks with
-  | rq :: hd :: rd :: ck :: fo :: lim :: ops =>
+  | rq :: hd :: rd :: ck :: fo :: rb :: lim :: ops =>
     match lim.toNat? with
     | none => "bad-op"
     | some l =>
-      let cfg : Cfg := ⟨b rq, b hd, b rd, b ck, b fo⟩
+      let cfg : Cfg := ⟨b rq, b hd, b rd, b ck, b fo, b rb⟩
       let rec go (s : St) (givers imm : List Nat) (ops : List String) (acc : List String) : List String :=
         match ops with
         | [] => acc.reverse
-        | o :: rest =>
+        | o0 :: rest =>
+          -- a token ending in `+` is part of a burst: executed without running the loop and without an observation
+          let burst := o0.endsWith "+"
+          let o := if burst || o0.endsWith "!" then (o0.dropEnd 1).toString else o0
           match parseOp o with
           | none => ("bad-op" :: acc).reverse
           | some a =>
@@ -56,8 +69,10 @@ def runLine (toks : List String) : String :=
             let (givers', imm') := match a with
               | .give _ f _ => (f :: givers, if !s.closed && s1.writers.length == s.writers.length then f :: imm else imm)
               | _ => (givers, imm)
-            let s' := pump cfg 64 s1
-            go s' givers' imm' rest (obs s' givers' imm' :: acc)
+            if burst then go s1 givers' imm' rest acc
+            else
+              let s' := pump cfg 256 s1
+              go s' givers' imm' rest (obs s' givers' imm' :: acc)
       String.intercalate " ; " (go (init l) [] [] ops [])
   | _ => "bad-op"
 
